@@ -19,7 +19,7 @@ RULE = ("matrices of every data type (dna, rna, protein, standard incl. custom s
         "or a data set with >= 2 namespaces")
 MODELLED_NOT_VERIFIED = [
     "C09: XML text of NeXML (the model works on the abstract document: <char> ids in format order, <cell char= state=>), float "
-    "formatting/parsing of continuous values (oracle only), label quoting (C02), PHYLIP label uniquification, NEXUS tokenizer "
+    "formatting of continuous values (repr; the model takes the decimal tokens as given and compares them numerically), label quoting (C02), PHYLIP label uniquification, NEXUS tokenizer "
     "(rows reach the model as label token + row text), EQUATE emission",
     "C09: the Lean readers/writers are hand-written from NexusWriter._write_char_block/_compose_format_terms, NexusReader."
     "_parse_format_statement/_read_character_states/_process_discrete_matrix_data, PhylipWriter/PhylipReader, FastaWriter/FastaReader, "
@@ -30,14 +30,17 @@ EXPLANATION = ("Theorems (Props/C09.lean): symbol tables (symbol_roundtrip, symb
                "ANY custom standard symbol set unchanged by upper-casing, standard_symbols_denote_themselves; FORMAT (format_roundtrip for the fixed "
                "types, format_standard_roundtrip: parsing half for arbitrary such symbol strings); NEXUS rows and whole matrix, sequential on both "
                "entry paths (cells_roundtrip, nexus_matrix_roundtrip) and interleaved in pages of any widths (nexus_interleaved_matrix_roundtrip); "
-               "MATCHCHAR at row level with the first sequence given (matchchar_row_roundtrip); whole-file PHYLIP: relaxed for labels written "
+               "MATCHCHAR at row level and lifted to one nxStep with the first row looked up in the accumulator (matchchar_row_roundtrip, "
+               "nexus_matchchar_roundtrip_partial: whole-matrix fold missing); continuous rows as decimal tokens (continuous_tokens_roundtrip, "
+               "continuous_row_roundtrip); NeXML otus references (nexml_links_resolve); custom alphabets through FORMAT and "
+               "_build_state_alphabet (format_standard_alphabet_roundtrip); whole-file PHYLIP: relaxed for labels written "
                "without blanks under every underscore option pair (phylip_relaxed_roundtrip), relaxed with multispace delimiter for labels with "
                "single inner blanks (phylip_multispace_roundtrip), strict (phylip_strict_roundtrip); whole-file FASTA with wrapping "
                "(fasta_roundtrip); NeXML columns (nexml_columns_partial, nexml_matrix_columns: abstract document, identity column ids); TITLE/LINK "
                "(assignTitles_distinct, title_link_resolves); conversion chains as compositions of the above for symbol-only rows "
                "(convert_*). Whole-file theorems assume at least one row and rows of one positive length. Correspondence/oracle only: match "
-               "characters and row reordering in whole matrices, PHYLIP interleaved paging, continuous values, NeXML XML text and otus "
-               "references, tree lists, construction routes (from_dict/concatenate/export), lower-case custom symbols.")
+               "characters and row reordering in whole matrices, PHYLIP interleaved paging, float formatting of continuous values, NeXML XML "
+               "text, tree lists, construction routes (from_dict/concatenate/export), lower-case custom symbols.")
 
 NS = "{http://www.nexml.org/2009}"
 
@@ -705,6 +708,60 @@ def canon_fasta(text):
     return "\n".join("%s|%s" % (a, b) for a, b in out)
 
 
+def canon_dec(tok):
+    """sign, mantissa without trailing zeros, exponent of a decimal token (Python's decimal module: independent of float())"""
+    import decimal
+    d = decimal.Decimal(tok)
+    sign, digits, exp = d.as_tuple()
+    mant = int("".join(str(x) for x in digits))
+    if mant == 0:
+        return "+0e0"
+    while mant % 10 == 0:
+        mant //= 10
+        exp += 1
+    return "%s%de%d" % ("-" if sign else "+", mant, exp)
+
+
+def continuous_rows(text, fmt, ncols, strict=False):
+    """value tokens of each written row of a continuous matrix (the last ncols[i] white-space separated tokens of row i)"""
+    lines = text.split("\n")
+    if fmt == "nexus":
+        k = next(i for i, l in enumerate(lines) if l.strip().upper() == "MATRIX")
+        body = []
+        for l in lines[k + 1:]:
+            if l.strip() == ";":
+                break
+            if l.strip():
+                body.append(l)
+    else:
+        body = [(l[10:] if strict else l) for l in lines[1:] if l.strip()]
+    return [l.split()[len(l.split()) - n:] if n else [] for l, n in zip(body, ncols)]
+
+
+def check_decimals(ctx, pending):
+    """decimal tokens: the model's parser against Python's float() acceptance and decimal value"""
+    import decimal
+    rng = ctx.rng
+    toks = ["0", "-0", "-0.0", "1e5", "1E5", "+2.5", ".5", "5.", "1e", "e5", "--1", "1.2.3", "abc", "1e+", "1e-05", "+", "-", ".", "12a",
+            "5e-324", "1.7976931348623157e+308", "123456789.125", "1e+22", "00012", "1e05"]
+    for _ in range(40):
+        t = rng.choice(["", "-", "+"]) + rng.choice(["", "0", "7", "12", "340"]) + rng.choice(["", ".", ".0", ".25", ".500"])
+        t += rng.choice(["", "", "e3", "E-2", "e+10", "e-07", "e"])
+        toks.append(t)
+    for t in toks:
+        if not t or any(c in t for c in "_ \t\n"):
+            continue
+        try:
+            float(t)
+            decimal.Decimal(t)
+            impl = canon_dec(t)
+            impl = "%s %s %s" % (impl[0], impl[1:].split("e")[0], impl.split("e")[1])
+        except (ValueError, decimal.InvalidOperation):
+            impl = "err"
+        ctx.case(["dec", t], False, kind="decimal")
+        pending.append(("dec " + hex6(t), {"kind": "dec", "token": t}, impl, "dec"))
+
+
 def cells_field(cells):
     if not cells:
         return "-"
@@ -821,6 +878,13 @@ def exec_matrix(ctx, dendropy, spec, pending):
                 dt, fmt, f2, type(e).__name__, str(e)[:200]), spec)
     # ---- model side
     if dt == "continuous":
+        if fmt in ("nexus", "phylip"):
+            for (l, cells), toks in zip(ref, continuous_rows(text, fmt, [len(c) for _, c in ref], bool(w.get("strict")))):
+                want = [repr(float(x)) for x in cells]
+                pending.append(("contwrite %d %s" % (1 if fmt == "nexus" else 0, " ".join(hex6(t) for t in want)), spec,
+                                " ".join(toks), "contwrite"))
+                pending.append(("contread " + hex6(" ".join(toks) + (" " if fmt == "nexus" else "")), spec,
+                                "ok " + " ".join(canon_dec(t) for t in want), "contread"))
         return
     # concatenate gives a standard matrix a fresh default alphabet; a copy (export_character_indices) keeps its source's
     dtf_w = dt_field(dt, None if via == "concatenate" else spec.get("std"))
@@ -893,6 +957,8 @@ def flush(ctx, pending):
             if a != b:
                 ctx.disagree(op, spec, str(a)[:300], str(b)[:300])
             continue
+        if op == "contwrite":
+            mo = " ".join((unhex6(mo) or "").split())
         if op.startswith("phwrite"):
             mo = canon_phylip("\n".join(unhex6(x) or "" for x in mo.split()), op.endswith("1"))
             op = "phwrite"
@@ -1039,12 +1105,21 @@ def gen_dataset_spec(rng, schema=None, sbt="?", n=None, fancy=None):
     for b in range(rng.randint(1, 4)):
         i = rng.randrange(n)
         if rng.random() < 0.65:
-            dt = rng.choice(["dna", "protein", "standard"])
+            # any data type the schema supports, in any order; some matrices are concatenations (they carry character
+            # subsets, so a SETS block follows them in NEXUS), some are continuous (negative values, exponents)
+            dts = ["dna", "protein", "standard", "rna", "continuous", "continuous"] + (["nucleotide"] if schema == "nexus" else [])
+            dt = rng.choice(dts)
             nchar = rng.randint(1, 6)
-            mats.append({"ns": i, "dt": dt, "label": rng.choice([None, "M%d" % b, ns[i]["label"]]),
-                         "rows": [[gen_symbol(rng, SYMS[dt]) for _ in range(nchar)] for _ in ns[i]["taxa"]]})
+            md = {"ns": i, "dt": dt, "label": rng.choice([None, "M%d" % b, ns[i]["label"]]),
+                  "rows": gen_rows(rng, dt, len(ns[i]["taxa"]), nchar, SYMS.get(dt))}
+            if dt != "standard" and nchar >= 2 and rng.random() < 0.4:
+                md["cut"] = sorted(rng.sample(range(1, nchar), rng.randint(1, min(2, nchar - 1))))
+            mats.append(md)
         else:
-            trees.append({"ns": i, "label": rng.choice([None, "TL%d" % b]), "n": rng.randint(1, 2)})
+            td = {"ns": i, "label": rng.choice([None, "TL%d" % b]), "n": rng.randint(1, 2)}
+            if rng.random() < 0.6:
+                td["lens"] = [[gen_float(rng) for _ in ns[i]["taxa"]] for _ in range(td["n"])]
+            trees.append(td)
     return {"kind": "dataset", "schema": schema, "sbt": sbt, "ns": ns, "mats": mats, "trees": trees}
 
 
@@ -1084,9 +1159,19 @@ def exec_dataset(ctx, dendropy, spec, pending):
     blocks = []
     for md in spec["mats"]:
         tns = nss[md["ns"]]
-        m = matrix_class(dendropy, md["dt"])(taxon_namespace=tns, label=md["label"])
-        for t, r in zip(tns, md["rows"]):
-            m[t] = m.coerce_values(r)
+        cls = matrix_class(dendropy, md["dt"])
+
+        def mk(rows, label=None):
+            m = cls(taxon_namespace=tns, label=label)
+            for t, r in zip(tns, rows):
+                m[t] = m.coerce_values(r) if md["dt"] != "continuous" else [float(x) for x in r]
+            return m
+        if md.get("cut"):
+            cuts = [0] + list(md["cut"]) + [len(md["rows"][0])]
+            m = cls.concatenate([mk([r[a:b] for r in md["rows"]]) for a, b in zip(cuts, cuts[1:])])
+            m.label = md["label"]
+        else:
+            m = mk(md["rows"], md["label"])
         ds.add_char_matrix(m)
         blocks.append(md["ns"])
     for td in spec["trees"]:
@@ -1094,7 +1179,9 @@ def exec_dataset(ctx, dendropy, spec, pending):
         tl = dendropy.TreeList(taxon_namespace=tns, label=td["label"])
         for k in range(td["n"]):
             labs = [t.label for t in tns]
-            tl.append(dendropy.Tree.get(data="(%s);" % ",".join(nx_quote(l) for l in (labs if k == 0 else labs[::-1])),
+            lens = td.get("lens")
+            leaves = [nx_quote(l) + (":" + repr(float(lens[k][j])) if lens else "") for j, l in enumerate(labs)]
+            tl.append(dendropy.Tree.get(data="(%s);" % ",".join(leaves if k == 0 else leaves[::-1]),
                                         schema="newick", taxon_namespace=tns))
         ds.add_tree_list(tl)
         blocks.append(td["ns"])
@@ -1143,8 +1230,11 @@ def exec_dataset(ctx, dendropy, spec, pending):
                 if [t.label for t in m2.taxon_namespace] != own:
                     problems.append("matrix %d is attached to a namespace with labels %s, its own are %s" % (
                         k, [t.label for t in m2.taxon_namespace], own))
-                elif not same_content([[l, r] for l, r in zip(own, md["rows"])], content(m2)):
-                    problems.append("matrix %d content changed" % k)
+                elif m2.data_type != md["dt"]:
+                    problems.append("matrix %d reads back as type %s, was %s" % (k, m2.data_type, md["dt"]))
+                elif not same_content([[l, [float(x) for x in r] if md["dt"] == "continuous" else list(r)] for l, r in zip(own, md["rows"])],
+                                      content(m2)):
+                    problems.append("matrix %d content changed: %s" % (k, brief(content(m2))))
                 attach.append(next((i for i, t in enumerate(d2.taxon_namespaces) if t is m2.taxon_namespace), -1))
             for k, (tl2, td) in enumerate(zip(d2.tree_lists, spec["trees"])):
                 own = spec["ns"][td["ns"]]["taxa"]
@@ -1155,11 +1245,29 @@ def exec_dataset(ctx, dendropy, spec, pending):
                     leaves = sorted(nd.taxon.label for nd in tr.leaf_node_iter() if nd.taxon is not None)
                     if leaves != sorted(own):
                         problems.append("tree in list %d carries taxa %s, expected %s" % (k, leaves, sorted(own)))
+                if td.get("lens") and len(tl2) == td["n"]:
+                    for j, tr in enumerate(tl2):
+                        got_len = {nd.taxon.label: nd.edge.length for nd in tr.leaf_node_iter() if nd.taxon is not None}
+                        want_len = dict(zip(own, [float(x) for x in td["lens"][j]]))
+                        if got_len != want_len:
+                            problems.append("tree %d of list %d has leaf edge lengths %s, were %s" % (j, k, got_len, want_len))
                 attach.append(next((i for i, t in enumerate(d2.taxon_namespaces) if t is tl2.taxon_namespace), -1))
         if problems and must_work:
             if any(has_none(content(m2)) for m2 in d2.char_matrices):
                 kind = "nexml-columns"
             report(ctx, kind, "data set with %d namespaces via %s (suppress_block_titles=%s): %s" % (n, spec["schema"], sbt, "; ".join(problems[:3])), spec)
+    # ---- model: NeXML otus ids and the references of <characters> / <trees> to them
+    if spec["schema"] == "nexml":
+        try:
+            root = ET.fromstring(text.encode("utf-8") if "encoding=" in text[:60] else text)
+            ids = [e.get("id") for e in root if strip_ns(e.tag) == "otus"]
+            refs = [e.get("otus") for e in root if strip_ns(e.tag) == "characters"] + [e.get("otus") for e in root if strip_ns(e.tag) == "trees"]
+        except ET.ParseError:
+            ids, refs = None, None
+        if ids is not None and all(i for i in ids) and all(r for r in refs) and len(refs) == len(blocks):
+            res = [str(a) for a in attach] if d2 is not None and len(attach) == len(blocks) else ["err"] * len(blocks)
+            pending.append(("otus %d %s %s" % (len(ids), " ".join(hex6(i) for i in ids), " ".join(hex6(r) for r in refs)), spec,
+                            " ".join(res), "otus"))
     # ---- model: TITLE / LINK decisions of the writer and their resolution
     simple_titles = all(d["label"] is not None and re.match(r"^[A-Za-z0-9.]+$", d["label"]) for d in spec["ns"])
     if spec["schema"] == "nexus" and simple_titles and all((md["label"] is None or md["label"] not in [d["label"] for d in spec["ns"]]) for md in spec["mats"]):
@@ -1388,6 +1496,8 @@ def exec_spec(ctx, dendropy, spec, pending):
         exec_reject(ctx, dendropy, spec, pending)
     elif k in ("sym", "match"):
         check_alphabets(ctx, dendropy, pending)
+    elif k == "dec":
+        check_decimals(ctx, pending)
     else:
         raise ValueError("unknown case kind %r" % (k,))
 
@@ -1405,6 +1515,8 @@ def run(ctx):
     pending = []
     sizes0 = alphabet_sizes(dendropy)
     check_alphabets(ctx, dendropy, pending)
+    check_decimals(ctx, pending)
+    flush(ctx, pending)
     for f in FORMATS:
         exec_equate(ctx, dendropy, dict(EQUATE_SPEC, target=f))
     for spec in FIXED_SPECS:
